@@ -57,8 +57,20 @@ def run_impl(sc):
             elif op in ("rd0", "rd1"):
                 o, f = ws.recv_data_frame(op == "rd1")
                 obs.append(f"ok:{o}:{frame_obs(f)}")
-            elif op == "rv":
-                v = ws.recv()
+            elif op in ("rv", "it"):
+                if op == "it":
+                    # `for message in ws` / next(): "iteration over websocket, implying sequential recv executions"
+                    if not hasattr(s, "iterator"):
+                        s.iterator = iter(ws)
+                    try:
+                        v = next(s.iterator)
+                    except StopIteration:
+                        obs.append("stop-iteration")
+                        rems.append(sum(len(e[1]) for e in s.inbox if e[0] == "D"))
+                        marks.append(len(s.log))
+                        continue
+                else:
+                    v = ws.recv()
                 if isinstance(v, str) and v == "" :
                     # "" is returned both for an empty text message and for non-data opcodes
                     obs.append("ok:E")
@@ -81,6 +93,11 @@ def run_impl(sc):
             elif parts[0] == "cl":
                 ws.close(int(parts[1]), bytes.fromhex(parts[2].replace("-", "")))
                 obs.append("ok:none")
+            elif parts[0] == "sf":
+                # one frame of the caller's own making (e.g. a FIN=0 fragment of a message streamed out piece by piece)
+                from websocket import ABNF
+                n = ws.send_frame(ABNF.create_frame(bytes.fromhex(parts[3].replace("-", "")), int(parts[1]), int(parts[2])))
+                obs.append(f"ok:{n}")
             elif parts[0].startswith("s"):
                 n = ws.send(bytes.fromhex(parts[1].replace("-", "")), int(parts[0][1:]))
                 obs.append(f"ok:{n}")
